@@ -614,7 +614,38 @@ def install(root, mounts, uid, plan, logfd):
         os.getpid = lambda: 4242
     if plan.get('audit', True):
         sys.addaudithook(sh.audit_hook)
+    if plan.get('drop_caps'):
+        drop_caps()
     return sh
+
+
+def drop_caps():
+    """make the kernel enforce file permissions on this (root) process like
+    on an ordinary owner: drop CAP_CHOWN, CAP_DAC_OVERRIDE,
+    CAP_DAC_READ_SEARCH, CAP_FOWNER, CAP_FSETID from the effective, permitted
+    and inheritable sets.  Mode bits of the sandbox (owned by root) then bite:
+    a 0555 directory cannot be written, a 0000 file cannot be read."""
+    import ctypes
+    libc = ctypes.CDLL(None, use_errno=True)
+
+    class Hdr(ctypes.Structure):
+        _fields_ = [('version', ctypes.c_uint32), ('pid', ctypes.c_int)]
+
+    class Data(ctypes.Structure):
+        _fields_ = [('effective', ctypes.c_uint32),
+                    ('permitted', ctypes.c_uint32),
+                    ('inheritable', ctypes.c_uint32)]
+    hdr = Hdr(0x20080522, 0)
+    data = (Data * 2)()
+    if libc.capget(ctypes.byref(hdr), data) != 0:
+        raise OSError(ctypes.get_errno(), 'capget')
+    for c in (0, 1, 2, 3, 4):
+        i, b = divmod(c, 32)
+        data[i].effective &= ~(1 << b)
+        data[i].permitted &= ~(1 << b)
+        data[i].inheritable &= ~(1 << b)
+    if libc.capset(ctypes.byref(hdr), data) != 0:
+        raise OSError(ctypes.get_errno(), 'capset')
 
 
 def finish():
